@@ -114,13 +114,13 @@ B3 = {
     "C18": [dict(gen="Gen_Settings", quick="MaxSettings = 3\n  AllOrders = FALSE\n  Full = FALSE", thorough="MaxSettings = 3\n  AllOrders = TRUE\n  Full = TRUE", props=["P_C18", "P_C10"])],
     "C06": [dict(gen="Gen_Canary", quick="Full = FALSE", thorough="Full = TRUE", props=["P_C06", "P_C08", "P_C14"])],
     "C09": [dict(gen="Gen_Limits", quick='MaxN = 4\n  Reps = 1\n  MaxUs = {"1"}\n  MaxSFs = {"0"}\n  Variants <- VariantsQuick',
-                 thorough='MaxN = 5\n  Reps = 1\n  MaxUs = {"1", "50%"}\n  MaxSFs = {"0"}\n  Variants <- VariantsThorough', props=["P_C09", "P_C08"])],
+                 thorough='MaxN = 4\n  Reps = 1\n  MaxUs = {"1", "50%"}\n  MaxSFs = {"0"}\n  Variants <- VariantsThorough', props=["P_C09", "P_C08"])],
     "C08": [dict(gen="Gen_Canary", quick="Full = FALSE", thorough="Full = TRUE", props=["P_C08"]),
             dict(gen="Gen_Limits", quick='MaxN = 3\n  Reps = 1\n  MaxUs = {"1", "2"}\n  MaxSFs = {"0"}\n  Variants <- VariantsQuick',
                  thorough='MaxN = 4\n  Reps = 2\n  MaxUs = {"1", "2", "50%"}\n  MaxSFs = {"0", "1"}\n  Variants <- VariantsQuick', props=["P_C08", "P_C09"])],
     "C03": [dict(gen="Gen_Limits",
                  quick='MaxN = 4\n  Reps = 2\n  MaxUs = {"0", "1", "2", "50%"}\n  MaxSFs = {"0", "1"}\n  Variants <- VariantsQuick',
-                 thorough='MaxN = 5\n  Reps = 3\n  MaxUs = {"0", "1", "2", "3", "25%", "50%", "100%"}\n  MaxSFs = {"0", "1", "50%"}\n  Variants <- VariantsThorough',
+                 thorough='MaxN = 4\n  Reps = 3\n  MaxUs = {"0", "1", "2", "3", "25%", "50%", "100%"}\n  MaxSFs = {"0", "1", "50%"}\n  Variants <- VariantsThorough',
                  props=["P_C03", "P_C09", "P_C08", "P_C01"])],
 }
 
